@@ -2,7 +2,7 @@
 # Like run_seeds.sh but never touches /repo: every seeded change is applied to a scratch worktree of /repo HEAD and the
 # quick check runs against it (VERIF_REPO). Writes seeded/RESULTS.md. Usage: run_seeds_scratch.sh [id ...]
 cd /verif
-OUT=seeded/RESULTS.md
+OUT=${SEED_OUT:-seeded/RESULTS.md}
 TMPOUT=$(mktemp)
 echo "| seeded change | patch applies to HEAD | check | result |" > $TMPOUT
 echo "|---|---|---|---|" >> $TMPOUT
